@@ -156,7 +156,9 @@ SFold(idx, d, q, i, acc) ==
 Spans(idx, d, q) ==
   CASE q.op = "term" -> {<<p, p>> : p \in Positions(idx, d, q.f, q.t)}
     [] q.op = "or" -> UNION {Spans(idx, d, q.kids[i]) : i \in DOMAIN q.kids}
-    [] q.op = "spanor" -> SMerge(UNION {Spans(idx, d, q.kids[i]) : i \in DOMAIN q.kids})
+    \* (with a single sub-query there is nothing to merge with: its spans are passed through)
+    [] q.op = "spanor" -> IF Len(q.kids) = 1 THEN Spans(idx, d, q.kids[1])
+                          ELSE SMerge(UNION {Spans(idx, d, q.kids[i]) : i \in DOMAIN q.kids})
     [] q.op = "spanfirst" -> {x \in Spans(idx, d, q.q) : x[2] <= q.limit}
     [] q.op = "spannear" -> SNear(Spans(idx, d, q.a), Spans(idx, d, q.b), q.slop, q.ordered, q.mindist)
     [] q.op = "spannear2" -> IF q.kids = <<>> THEN {} ELSE SFold(idx, d, q, 2, Spans(idx, d, q.kids[1]))
